@@ -16,7 +16,7 @@ WITNESS_ONLY = ['rigid-motion invariance of the pairing: evaluated on concrete w
 BOUNDS = {"quick": {"sources": 1, "targets": 2}, "thorough": {"sources": 2, "targets": 2}}
 EXPECTED_EXCEPTIONS = ()
 OPTS = {"qtimeout": 8.0, "otimeout": 40.0, "max_paths": 600, "budget_s": 170}
-OPTS_THOROUGH = {'max_paths': 20000, 'budget_s': 1500}
+OPTS_THOROUGH = {'max_paths': 20000, 'budget_s': 1200}
 
 
 def _false(env):
